@@ -38,3 +38,13 @@ Example C12_roundtrippable_example :
                           (Quant Universal (0, 12%N) (Pred (PUser 0 3%N 2) [Var 0 12%N; Var 0 12%N]))))
   = true.
 Proof. vm_compute. reflexivity. Qed.
+
+(* The canonical argument string (':'-joined Polish renderings, conclusion first) rebuilds
+   an equal argument: from_argstr parses the pieces in order with one auto-declaring parser.
+   argument_ok: non-empty, every sentence in the language, jointly arity-consistent. *)
+From PT Require Import Lang.ArgStr.
+Theorem C12_argstr_roundtrip : forall T W, agree_b T W = true -> tlookup T colon = None ->
+  forall ss, argument_ok ss = true ->
+  exists w, argstr W ss = Some w /\ from_argstr T w = OK ss.
+Proof. intros T W H. exact (argstr_roundtrip T W (agree_b_sound T W H)). Qed.
+Print Assumptions C12_argstr_roundtrip.
